@@ -615,3 +615,42 @@ fn int_vect(i: &lc3_ensemble::sim::device::Interrupt) -> u32 {
     let s = format!("{i:?}");
     s.split("vect: ").nth(1).and_then(|r| r.split(',').next()).and_then(|n| n.trim().parse().ok()).unwrap_or(999)
 }
+
+
+/// `lc3v replay load hist=<file>`: each history is a case of MC_Load: neighbours initialized first (0/1), number of
+/// blocks, then per block start, length and words (-1 = reserved word).  The object is assembled from a source
+/// text written from the blocks and loaded with the real load_obj_file.
+pub fn replay_load(a: &Args, out: &mut Out) {
+    let hist = std::fs::read_to_string(a.get_str("hist", "")).expect("hist file");
+    crate::machine::set_pair_tag("none");
+    crate::machine::LIGHT_HEADERS.with(|l| l.set(true));
+    let mut run = 0u64;
+    for line in hist.lines() {
+        if line.trim().is_empty() { continue; }
+        let h: Vec<i64> = serde_json::from_str(line).expect("history");
+        let (pre, nb) = (h[0] == 1, h[1] as usize);
+        let mut blocks: Vec<(u16, Vec<i64>)> = vec![];
+        let mut i = 2;
+        for _ in 0..nb { let (s, n) = (h[i] as u16, h[i + 1] as usize); blocks.push((s, h[i + 2..i + 2 + n].to_vec())); i += 2 + n; }
+        let mut src = String::new();
+        for (s, ws) in &blocks {
+            src.push_str(&format!(".orig x{s:04X}\n"));
+            for w in ws { if *w < 0 { src.push_str(".blkw 1\n"); } else { src.push_str(&format!(".fill x{:04X}\n", *w as u16)); } }
+            src.push_str(".end\n");
+        }
+        let obj = assemble_src(&src);
+        run += 1;
+        let mut m = M::new(run, SimFlags { strict: false, use_real_traps: false, machine_init: MachineInitStrategy::Known { value: 0 },
+                                           debug_frames: false, ignore_privilege: false }, out);
+        if pre {
+            let mut pokes: Vec<(u16, Word)> = vec![];
+            for (s, ws) in &blocks {
+                if *s > 0 { pokes.push((*s - 1, word(0x1111, 0xFFFF))); }
+                for k in 0..=ws.len() as u32 { let a = *s as u32 + k; if a <= 0xFFFF { pokes.push((a as u16, word(0x1111, 0xFFFF))); } }
+            }
+            m.set_mems(out, &pokes);
+        }
+        m.load(out, &obj);
+        m.end(out);
+    }
+}
